@@ -1029,7 +1029,11 @@ func (p *Pkg) buildGetModel() *GetModel {
 		}
 	}
 	if gm.Default == nil {
-		add(false, "R09.default", "default", sw, "Get has no default arm: an unknown abbreviation yields (\"\", nil)")
+		// no default arm: what Get answers for an unknown abbreviation is read
+		// off a run on a symbolic receiver (the answer may follow the switch)
+		refuses, typed, why := p.getUnknownSemantic(fd)
+		add(refuses, "R09.default", "default", sw, map[bool]string{true: "an unknown abbreviation is refused with a non-nil error", false: why}[refuses])
+		add(typed, "R18.default", "default", sw, why)
 	} else {
 		refuses, typed, why := p.defaultArmError(gm.Default.Body, abv, errObj)
 		add(refuses, "R09.default", "default", gm.Default, map[bool]string{true: "an unknown abbreviation is refused with a non-nil error", false: "an unknown abbreviation is not refused with a provably non-nil error: " + why}[refuses])
@@ -1446,4 +1450,27 @@ func (p *Pkg) getSemanticFill(gm *GetModel) {
 		}
 		gm.Obls = kept
 	}
+}
+
+// getUnknownSemantic: Get("<unknown>") on a symbolic receiver.
+func (p *Pkg) getUnknownSemantic(fd *ast.FuncDecl) (refuses, typed bool, why string) {
+	leaves, split, err := p.explore(fd, []Val{vStr("\x00zz")}, 4)
+	if err != nil || len(leaves) != 1 || len(split) != 0 || leaves[0].Err != nil {
+		return false, false, "Get has no default arm and its answer to an unknown abbreviation could not be evaluated: undecided"
+	}
+	v := leaves[0].Ret
+	if v.K != VTuple || len(v.T) != 2 {
+		return false, false, "Get does not return (string, error)"
+	}
+	e := v.T[1]
+	if e.K == VNil {
+		return false, false, "an unknown abbreviation yields a nil error"
+	}
+	refuses = true
+	if e.K == VStruct && e.S == "ErrInvalidMetric" && e.I == 1 {
+		if a, ok := e.F["Abv"]; ok && a.K == VStr && a.S == "\x00zz" {
+			return true, true, "an unknown abbreviation is refused with &ErrInvalidMetric naming it"
+		}
+	}
+	return true, false, "an unknown abbreviation is refused with " + e.String() + ", the documented error is &ErrInvalidMetric{Abv: abv}"
 }
